@@ -33,7 +33,12 @@ impl<'de> Take for SliceRead<'de> {
 	type Take = SliceReadTake<'de>;
 	fn take(self, block_size: usize) -> Result<Self::Take, DeError> {
 		if block_size > self.slice.len() {
-			return Err(DeError::new("Read block size larger than original slice"));
+			// The input ends before the end of the block (like when reading from an
+			// `impl BufRead` that ends before the end of the block)
+			return Err(DeError::custom_io(
+				"Read block size larger than original slice",
+				std::io::ErrorKind::UnexpectedEof.into(),
+			));
 		}
 		let (start, end) = self.slice.split_at(block_size);
 		Ok(SliceReadTake {
